@@ -24,6 +24,7 @@ RULE = (
     "complement pairs sum to 1 or are both NaN; CIs nested in alpha; CI of the complementary rate is the mirrored interval; aliases identical; "
     "class methods == module functions. W1: int and float matrices, leading shapes () to 3-d incl. size-0 axes, zero rows/columns/matrices, counts "
     "up to 1e12, fractional weights, alpha in (0.001,0.999) plus 1e-300..1e-3 and 1-1e-15..1-1e-3. WX: all 81 matrices over {0,1,2}. Non-trivial: some cell non-zero; distinct = hash."
+    ' Build-phase additions: narrow integer matrices near the top of their type (exact int64 reference), extreme alphas, module-level and aliased interval defaults.'
 )
 ASSUMPTIONS = ["non-negative finite entries <= 1e12 (no overflow)", "statistics.NormalDist for z"]
 EXHAUSTIVE_SUBSPACE = "all 81 2x2 matrices with entries in {0,1,2}, as int and as float, 3 alphas"
